@@ -104,7 +104,7 @@ static std::string gen_for(Src& s) {
         }
         (void)cells;
     }
-    return std::string("for rt=") + RT[rt] + " vt=" + vt + " part=" + PARTS[part] + " dims=" + dims + " work=" + std::to_string(s.range(0, 6));
+    return std::string("for rt=") + RT[rt] + " vt=" + vt + " part=" + PARTS[part] + " dims=" + dims + " work=" + std::to_string(s.range(0, 6)) + " ov=" + std::to_string(part == 1 ? (int)s.weighted({ 4, 1, 2, 1 }) : (int)s.weighted({ 4, 1 }));
 }
 static std::string gen_step(Src& s) {
     static const char* V[] = { "i32", "u64", "u8", "i64" };
@@ -150,7 +150,7 @@ static std::string gen_each(Src& s) {
         }
     }
     if (kids.empty()) kids = "-";
-    return std::string("each it=") + IT[it] + " n=" + std::to_string(n) + " kids=" + kids + " add=" + (s.flip() ? "move" : "copy") + " work=" + std::to_string(s.range(0, 6));
+    return std::string("each it=") + IT[it] + " n=" + std::to_string(n) + " kids=" + kids + " add=" + (s.flip() ? "move" : "copy") + " work=" + std::to_string(s.range(0, 6)) + " ov=" + std::to_string(it == 2 ? 0 : (int)s.weighted({ 3, 2, 1, 1 }));
 }
 std::string h_gen(Src& s) {
     int par = 2 + (int)s.weighted({ 4, 4, 3, 1 }); if (par == 5) par = 1;
@@ -163,7 +163,7 @@ std::string h_gen(Src& s) {
         case 0: o += gen_for(s); break;
         case 1: o += gen_step(s); break;
         case 2: o += gen_each(s); break;
-        default: o += "invoke n=" + std::to_string(s.range(2, 10)) + " work=" + std::to_string(s.range(0, 6)); break;
+        default: o += "invoke n=" + std::to_string(s.range(2, 10)) + " work=" + std::to_string(s.range(0, 6)) + " ov=" + std::to_string((int)s.coin(3)); break;
         }
         o += "\n";
     }
@@ -280,18 +280,24 @@ template <class R> struct LoopBody {
         record_chunk(c, w.empty());
     }
 };
+static int g_ov = 0;
 static void space_reset() { SP.cnt.assign(SP.counted ? (size_t)SP.cells : 0, 0); SP.chunks.clear(); SP.caller = vs_self(); }
 template <class R> static void run_for(const R& range, int part) {
     WR<R> w(range); LoopBody<R> body;
     space_reset();
-    if (part == 0) tbb::parallel_for(w, body, tbb::simple_partitioner());
-    else if (part == 1) tbb::parallel_for(w, body, tbb::auto_partitioner());
-    else if (part == 2) tbb::parallel_for(w, body, tbb::static_partitioner());
+    tbb::task_group_context ctx(tbb::task_group_context::isolated);
+    // ov: 0 (range, body, partitioner)   1 (range, body, partitioner, context)   2 (range, body) = default partitioner (only generated with part=auto)   3 (range, body, context)
+    if (g_ov == 2) tbb::parallel_for(w, body);
+    else if (g_ov == 3) tbb::parallel_for(w, body, ctx);
+    else if (part == 0) { if (g_ov == 1) tbb::parallel_for(w, body, tbb::simple_partitioner(), ctx); else tbb::parallel_for(w, body, tbb::simple_partitioner()); }
+    else if (part == 1) { if (g_ov == 1) tbb::parallel_for(w, body, tbb::auto_partitioner(), ctx); else tbb::parallel_for(w, body, tbb::auto_partitioner()); }
+    else if (part == 2) { if (g_ov == 1) tbb::parallel_for(w, body, tbb::static_partitioner(), ctx); else tbb::parallel_for(w, body, tbb::static_partitioner()); }
     else {
         tbb::affinity_partitioner ap;       // second round replays the recorded affinities
-        tbb::parallel_for(w, body, ap); judge_loop("parallel_for(affinity, round 1)");
-        space_reset(); tbb::parallel_for(w, body, ap); g_flags.insert("affinity_replay");
+        if (g_ov == 1) tbb::parallel_for(w, body, ap, ctx); else tbb::parallel_for(w, body, ap); judge_loop("parallel_for(affinity, round 1)");
+        space_reset(); if (g_ov == 1) tbb::parallel_for(w, body, ap, ctx); else tbb::parallel_for(w, body, ap); g_flags.insert("affinity_replay");
     }
+    if (g_ov) g_flags.insert("for_overload_" + std::to_string(g_ov));
     judge_loop("parallel_for");
 }
 struct Dim { std::string b; uint64_t n, g; };
@@ -322,7 +328,7 @@ static void run_nd(const std::vector<Dim>& d, int part) {
 static int part_of(const std::string& l) { std::string p = kvs(l, "part", "auto"); for (int i = 0; i < 5; i++) if (p == PARTS[i]) return i; vs_inconclusive("BAD-CASE", "unknown partitioner"); }
 
 static void op_for(const std::string& l) {
-    std::string rt = kvs(l, "rt", "br"), vt = kvs(l, "vt", "i32"), ds = kvs(l, "dims", "0:4:1"); int part = part_of(l); g_work = (int)kvl(l, "work", 0);
+    std::string rt = kvs(l, "rt", "br"), vt = kvs(l, "vt", "i32"), ds = kvs(l, "dims", "0:4:1"); int part = part_of(l); g_work = (int)kvl(l, "work", 0); g_ov = (int)kvl(l, "ov", 0); if ((g_ov == 2 || g_ov == 3) && part != 1) g_ov = 0;
     std::vector<Dim> d;
     for (size_t p = 0; p < ds.size();) { size_t e = ds.find(',', p); std::string it = ds.substr(p, e == std::string::npos ? std::string::npos : e - p); size_t c1 = it.find(':'), c2 = it.find(':', c1 + 1); if (c1 == std::string::npos || c2 == std::string::npos) vs_inconclusive("BAD-CASE", "dims"); d.push_back({ it.substr(0, c1), strtoull(it.c_str() + c1 + 1, nullptr, 10), strtoull(it.c_str() + c2 + 1, nullptr, 10) }); if (e == std::string::npos) break; p = e + 1; }
     if (d.empty() || d.size() > 4) vs_inconclusive("BAD-CASE", "dims");
@@ -413,8 +419,15 @@ static void op_each(const std::string& l) {
     for (int i = 0; i < total; i++) { if ((int)g_kids.size() <= i) g_kids.push_back(0); g_first_kid.push_back(total); total += g_kids[i]; if (total > 4096) vs_inconclusive("BAD-CASE", "too many items"); }
     g_visit.assign((size_t)total, 0); g_caller = vs_self(); g_other = false;
     std::vector<Item> v; for (int i = 0; i < n; i++) v.push_back(Item{ i });
-    if (it == "ra") { if (feed) tbb::parallel_for_each(v.begin(), v.end(), EachFeed()); else tbb::parallel_for_each(v.begin(), v.end(), EachPlain()); }
-    else if (it == "fw") { std::forward_list<Item> fl(v.begin(), v.end()); if (feed) tbb::parallel_for_each(fl.begin(), fl.end(), EachFeed()); else tbb::parallel_for_each(fl.begin(), fl.end(), EachPlain()); }
+    int ov = (int)kvl(l, "ov", 0); tbb::task_group_context ectx(tbb::task_group_context::isolated);       // ov: 0 iterators  1 container  2 iterators + context  3 container + context
+    auto each = [&](auto& cont) {
+        if (ov == 1) { if (feed) tbb::parallel_for_each(cont, EachFeed()); else tbb::parallel_for_each(cont, EachPlain()); }
+        else if (ov == 3) { if (feed) tbb::parallel_for_each(cont, EachFeed(), ectx); else tbb::parallel_for_each(cont, EachPlain(), ectx); }
+        else if (ov == 2) { if (feed) tbb::parallel_for_each(cont.begin(), cont.end(), EachFeed(), ectx); else tbb::parallel_for_each(cont.begin(), cont.end(), EachPlain(), ectx); }
+        else { if (feed) tbb::parallel_for_each(cont.begin(), cont.end(), EachFeed()); else tbb::parallel_for_each(cont.begin(), cont.end(), EachPlain()); } };
+    if (ov) g_flags.insert("for_each_overload_" + std::to_string(ov));
+    if (it == "ra") each(v);
+    else if (it == "fw") { std::forward_list<Item> fl(v.begin(), v.end()); each(fl); }
     else if (it == "in") { InIt b{ v.data() }, e{ v.data() + v.size() }; if (feed) tbb::parallel_for_each(b, e, EachFeed()); else tbb::parallel_for_each(b, e, EachPlain()); }
     else vs_inconclusive("BAD-CASE", "iterator kind");
     n_loops++;
@@ -425,9 +438,10 @@ static void op_each(const std::string& l) {
 
 // ---- parallel_invoke
 struct InvFn { int id; void operator()() const { int th = vs_self(); body_work(); if (++g_visit[id] > 1) vs_violation("RAN-TWICE", "parallel_invoke: functor %d invoked twice", id); n_items++; if (th != g_caller) { n_items_other++; g_other = true; } } };
-template <size_t... I> static void inv(std::index_sequence<I...>) { tbb::parallel_invoke(InvFn{ (int)I }...); }
+static bool g_inv_ctx = false;
+template <size_t... I> static void inv(std::index_sequence<I...>) { if (g_inv_ctx) { tbb::task_group_context c(tbb::task_group_context::isolated); tbb::parallel_invoke(InvFn{ (int)I }..., c); } else tbb::parallel_invoke(InvFn{ (int)I }...); }
 static void op_invoke(const std::string& l) {
-    int n = (int)kvl(l, "n", 2); g_work = (int)kvl(l, "work", 0);
+    int n = (int)kvl(l, "n", 2); g_work = (int)kvl(l, "work", 0); g_inv_ctx = kvl(l, "ov", 0) != 0; if (g_inv_ctx) g_flags.insert("invoke_with_context");
     g_visit.assign((size_t)n, 0); g_caller = vs_self(); g_other = false;
     switch (n) {
     case 2: inv(std::make_index_sequence<2>()); break; case 3: inv(std::make_index_sequence<3>()); break; case 4: inv(std::make_index_sequence<4>()); break;
